@@ -77,9 +77,10 @@ pub fn ref_list(decl: &[PathBuf], exts: &Option<Vec<Vec<u8>>>) -> (BTreeSet<Path
                 continue; // pruned
             }
             if ft.is_symlink() {
-                // symlink to a regular file: don't-care; anything else: must not be listed, not followed
-                if std::fs::metadata(&p).map(|m| m.is_file()).unwrap_or(false) {
-                    dc.insert(p);
+                // a symlink to a regular file denotes that file (the content behind it is part of the resource);
+                // a symlink to a directory is not followed, a dangling one denotes nothing
+                if std::fs::metadata(&p).map(|m| m.is_file()).unwrap_or(false) && ext_match(name.as_bytes(), exts) {
+                    must.insert(p);
                 }
             } else if ft.is_dir() {
                 walk(&p, exts, must, dc);
@@ -335,5 +336,5 @@ pub fn check_c15(rep: &mut Report) {
     rep.set("exhaustive", json!(true));
     rep.set("bounds", json!({"core_entries": core_n, "core": CORE.iter().map(|e| entry_str(e)).collect::<Vec<_>>(), "extras_one_at_a_time": extras.iter().map(|e| entry_str(e)).collect::<Vec<_>>(), "paths": decl_paths(), "extensions": decl_exts()}));
     rep.set("rule", json!("states = distinct (denoted set, declaration) pairs; transitions = listings compared with the reference walker"));
-    rep.assumptions.push("don't-care: symlinks to regular files, non-directories named .zinoma, declared paths that are symlinks".into());
+    rep.assumptions.push("symlinks to regular files are denoted (as on the pinned tree), directory symlinks are not followed; don't-care: non-directories named .zinoma, declared paths that are themselves symlinks".into());
 }
